@@ -161,7 +161,14 @@ void check_valid(const Truth& t, const std::string& wire) {
     for (int round = 0; round < 6; round++) {
         auto seg = round == 0 ? std::vector<uint32_t>() : rnd_seg();
         auto reads = rnd_reads();
-        Parsed p = parse(wire, t.is_request, seg, {}, ~0ULL, -1ULL, reads, cap);
+        // a length-delimited message may be followed at once by the next one on the same connection (pipelining): whatever the
+        // split, its body ends where the framing says, and nothing of what follows belongs to it
+        std::string follow;
+        if (t.framing != 2 && round >= 3 && sim::rnd(2)) {
+            follow = sim::rnd(2) ? "HTTP/1.1 200 OK\r\nContent-Length: 7\r\nX-Next: 1\r\n\r\nnextmsg" : rnd_bytes(1 + sim::rnd(300));
+            sim::probe("pipelined_bytes_after_message");
+        }
+        Parsed p = parse(wire + follow, t.is_request, seg, {}, ~0ULL, -1ULL, reads, cap);
         char d[256]; describe(d, sizeof d, t, seg, wire.size());
         if (p.rc_header != 0) HX_VIOL("valid-rejected", "receive_header() = %d (errno %d) on a valid message: %s", p.rc_header, p.en, d);
         if (!t.is_request && p.status != t.status) HX_VIOL("parse-differs", "status %d parsed, %d sent: %s", p.status, t.status, d);
@@ -216,6 +223,45 @@ void check_roundtrip() {
     sim::probe("roundtrip");
 }
 
+void check_keepalive() {
+    // several messages on one connection, each sent only after the previous one has been read to its end (no pipelining):
+    // every message must parse exactly as alone, i.e. the reader consumes exactly the bytes of a message -- a byte left in the
+    // stream or taken from the next message shows up in the message that follows
+    simstream::Pipe pipe;
+    pipe.a2b.seg = rnd_seg();
+    pipe.b.timeout(200000);         // a reader waiting for bytes that belong to no message gives up (and is reported)
+    int n = 2 + sim::rnd(3);
+    bool is_request = sim::rnd(3) == 0;
+    GuardedBuf gb(65535);
+    Req req; Resp resp; Message* m = is_request ? (Message*)&req : (Message*)&resp;
+    if (is_request) req.Message::reset(gb.buf, (uint16_t)65535, false, &pipe.b, false); else resp.reset(gb.buf, (uint16_t)65535, false, &pipe.b, false);
+    for (int i = 0; i < n; i++) {
+        Truth t; std::string wire;
+        for (int tries = 0; tries < 50; tries++) { t = Truth(); wire = gen_message(t); if (t.is_request == is_request && t.framing != 2 && wire.size() - t.body.size() < 40000) break; wire.clear(); }
+        if (wire.empty()) return;
+        pipe.a2b.buf.append(wire); pipe.a2b.total_written += wire.size(); pipe.a2b.readable.notify_all();
+        if (i) { if (is_request) req.reset(&pipe.b, false); else resp.reset(&pipe.b, false); }
+        int rc = is_request ? req.receive_header(-1ULL) : resp.receive_header(-1ULL);
+        char d[300]; snprintf(d, sizeof d, "message %d of %d on one connection (%s, framing %d, %zu headers, body %zu)", i + 1, n, is_request ? "request" : "response", t.framing, t.headers.size(), t.body.size());
+        if (rc != 0) HX_VIOL("valid-rejected", "receive_header() = %d (errno %d): %s", rc, errno, d);
+        if (!is_request && resp.status_code() != t.status) HX_VIOL("parse-differs", "status %d parsed, %d sent: %s", resp.status_code(), t.status, d);
+        if (is_request && (std::string(verbstr[req.verb()]) != t.verb || std::string(req.target()) != t.target)) HX_VIOL("parse-differs", "request line differs: %s", d);
+        std::vector<std::pair<std::string, std::string>> hs;
+        for (auto it = m->headers.begin(); it != m->headers.end(); ++it) hs.push_back({lower(std::string(it.first())), std::string(it.second())});
+        std::sort(hs.begin(), hs.end());
+        if (hs != truth_headers(t)) HX_VIOL("parse-differs", "header multimap differs from what was sent: %s", d);
+        std::string body, tmp(40000, 0);
+        for (int guard = 0; guard < 200000; guard++) {
+            ssize_t k = m->read(&tmp[0], sim::rnd(3) == 0 ? 1 + sim::rnd(16) : 1 + sim::rnd(tmp.size()));
+            if (k < 0) HX_VIOL("body-end", "body read failed (errno %d) instead of reaching end-of-body: %s", errno, d);
+            if (k == 0) break;
+            body.append(tmp.data(), k);
+        }
+        if (body != t.body) HX_VIOL("body-differs", "body differs (read %zu bytes, sent %zu): %s", body.size(), t.body.size(), d);
+    }
+    sim::probe("keepalive_sequence");
+}
+
 void check_hostile(const Truth& t, std::string wire) {
     // truncation at any byte, flipped / inserted / removed bytes, delays against the header timeout:
     // any result is acceptable except a crash, an access outside the buffers, or an endless loop
@@ -244,6 +290,7 @@ void work(int) {
         if (sim::rnd(2)) check_hostile(t, wire);
     }
     check_roundtrip();
+    check_keepalive();
 }
 
 phx::World W;
